@@ -211,7 +211,9 @@ def restrictions : Node → Restrictions
   | .contains l _ => [(l, { mustBePresent := true })]
   | .startsWith l _ => [(l, { mustBePresent := true })]
   | .endsWith l _ => [(l, { mustBePresent := true })]
-  | .inSet l vs => [(l, { mustBePresent := true, values := some vs })]
+  | .inSet l vs =>
+    -- `StringSet.SliceCopy` of the parser's nil slice for `{}` is nil: no value restriction
+    [(l, { mustBePresent := true, values := if vs.isEmpty then none else some vs })]
   | .has l => [(l, { mustBePresent := true })]
   | .ne _ _ => []
   | .notInSet _ _ => []
